@@ -1,5 +1,5 @@
 (* HillClimb.v - C05 at full strength on binary64: with kt_start = +0 the optimiser model
-   is a hill climb, for every configuration whose cooling ratio lies in [0,1] (or is absent),
+   is a hill climb, for every configuration whose cooling ratio is a number of magnitude <= 2^1000 (or is absent),
    every finishing temperature, every step counts, every oracle and every random stream with
    thresholds >= 0.  Premise about libm: exp(-inf) = 0. *)
 From Coq Require Import ZArith NArith List Bool Floats.
@@ -15,7 +15,7 @@ Section HillF.
   Definition thr_ok (d : draw NumF) : Prop := fleb 0%float (d_thr NumF d) = true.
   Definition ratio_ok (b : builder NumF) : Prop :=
     match b_kt_ratio NumF b with
-    | Some r => fleb 0%float r = true /\ fleb r 1%float = true
+    | Some r => fleb (PrimFloat.opp big) r = true /\ fleb r big = true    (* |r| <= 2^1000 *)
     | None => True
     end.
 
@@ -26,7 +26,7 @@ Section HillF.
     intros Hs Hr.
     rewrite (C18_factor_at_zero_start NumF fpow b) by (rewrite Hs; reflexivity).
     unfold ratio_ok in Hr. destruct (b_kt_ratio NumF b) as [r|].
-    - destruct Hr. now apply F_zero_mul_one_minus_ratio.
+    - destruct Hr. now apply F_zero_mul_factor.
     - reflexivity.
   Qed.
 
